@@ -257,8 +257,16 @@ func runC09(s c09Scen, c *ev.Case) *ev.Violation {
 				}
 				st.pending[op.Client] = map[string]bool{}
 			}
+			if !st.sessions[op.Client] {
+				// first CONNECT: the session and its sentinel subscription come into being during this step
+				touched["sess:"+fmt.Sprint(op.Client)], touched["subs:"+fmt.Sprint(op.Client)] = true, true
+			} else {
+				// a resume changes neither the existence of the (long acknowledged) session nor its subscriptions: a
+				// crash anywhere inside this step must leave both intact
+				c.Label("resume_step")
+			}
 			st.sessions[op.Client] = true
-			touched["sess:"+fmt.Sprint(op.Client)], touched["subs:"+fmt.Sprint(op.Client)], touched["queue:"+fmt.Sprint(op.Client)] = true, true, true
+			touched["queue:"+fmt.Sprint(op.Client)] = true
 		case "sub", "unsub":
 			if !online[op.Client] {
 				c.Count("skipped_ops", 1)
